@@ -242,7 +242,7 @@ fn verif_ns(t: SystemTime) -> i128 {
 
 #[cfg(feature = "verif")]
 fn verif_entries(data: &HashMap<String, (i64, Option<SystemTime>)>) -> String {
-    let mut v: Vec<String> = data
+    let mut v: Vec<(String, String)> = data
         .iter()
         .map(|(k, (val, exp))| {
             let hex: String = k.bytes().map(|b| format!("{b:02x}")).collect();
@@ -252,10 +252,12 @@ fn verif_entries(data: &HashMap<String, (i64, Option<SystemTime>)>) -> String {
             };
             (hex, format!("{val}:{e}"))
         })
-        .map(|(h, r)| format!("{h}:{r}"))
         .collect();
     v.sort();
-    v.join(",")
+    v.iter()
+        .map(|(h, r)| format!("{h}:{r}"))
+        .collect::<Vec<_>>()
+        .join(",")
 }
 
 #[cfg(feature = "verif")]
